@@ -11,7 +11,7 @@
 (* input multiset -- nothing dropped, nothing invented, whatever the       *)
 (* positions of the partners.  Checked by TLC over all short lists.        *)
 (***************************************************************************)
-EXTENDS Integers, Sequences, FiniteSets, TLC
+EXTENDS Integers, Sequences, FiniteSets, TLC, Json
 CONSTANTS Ids, Consts, MaxLen
 ConstsDef == -1..1
 Terms == [id : Ids, sg : {1, -1}, c : Consts]
@@ -49,4 +49,18 @@ BagEq(s, t) == Len(s) = Len(t) /\ \A x \in Terms : Count(s, x) = Count(t, x)
 \* at every moment: what was emitted plus what remains denotes exactly the input
 RoundTrip == BagEq(Flat(out, 1) \o rest, input)
 Done == rest = <<>> => BagEq(Flat(out, 1), input)
+
+(* ---- generator mode: the whole output for every input list, replayed into the real printer by lib/printdrv.py ---- *)
+FoldIdxOf(r) ==
+  LET tp == Head(r)
+      cand == {i \in 2..Len(r) : Opposite(tp, r[i]) /\ (tp.c = -r[i].c \/ tp.c = r[i].c)} IN
+  IF cand = {} THEN 0 ELSE CHOOSE i \in cand : \A j \in cand : i <= j
+RECURSIVE Run(_)
+Run(r) ==
+  IF r = <<>> THEN <<>>
+  ELSE LET tp == Head(r)  i == FoldIdxOf(r) IN
+       IF i = 0 THEN <<[kind |-> "le", t |-> tp]>> \o Run(Tail(r))
+       ELSE <<[kind |-> IF tp.c = -r[i].c THEN "eq" ELSE "abs", t |-> tp]>> \o Run(Tail(Remove(r, i)))
+GenSpec == Init /\ [][UNCHANGED vars]_vars
+EmitCase == PrintT(<<"CASE", ToJson([input |-> input, out |-> Run(input)])>>)
 =====================================================================
